@@ -646,6 +646,77 @@ def runGroup {C : Type} [DecidableEq C] (conv : Conv C) (cfg : Cfg) (tpl : Nat) 
         | .error e => .error e
         | .ok (w2, ov) => .ok (w2, ov.toList)
 
+/-! ## More of the elements' surface: formatted output directory, template from the context, several results per
+group member, an interrupted run -/
+
+/-- the string of a format template (`{{name}}` for the variable) -/
+def tplRaw : Tpl → String
+  | [] => ""
+  | .lit s :: r => s ++ tplRaw r
+  | .var :: r => "{{name}}" ++ tplRaw r
+
+def tplHasVar (t : Tpl) : Bool := t.any (· == .var)
+
+/-- `Write.__init__`, lines 61-66: `self.output_directory` is the string as given -/
+def writeDirInit (t : Tpl) : String := tplRaw t
+
+/-- `Write._set_context(context)` (lines 286-298): an output directory with `{` is formatted with the static
+context; if a key is missing (`LenaKeyError`) the directory stays what it was -/
+def writeDirSet (t : Tpl) (static : Option String) (cur : String) : String :=
+  if tplHasVar t then
+    match fmt t static with
+    | some s => s
+    | none => cur
+  else cur
+
+/-- `RenderLaTeX`: `_select_template_or_default` (lines 70-81): `context.output.template` if present (and
+non-empty), else the element's template; neither: `LenaRuntimeError` -/
+def selectTemplate (ctxTemplate default : Option Nat) : Except Exc Nat :=
+  match ctxTemplate with
+  | some t => .ok t
+  | none =>
+    match default with
+    | some t => .ok t
+    | none => .error .lenaRuntimeError
+
+/-- `MapGroup.run`, lines 196-214, on `context.output`: the member sequence gave every member the same number of
+results; result `j` of the group combines the `j`-th results of all members (`cols[j]`) with the group's context by
+`_update_with_group` — every result starts from the group's context as it was -/
+def mapGroupOuts (o : OutCtx) (cols : List (List OutCtx)) (oldInter : OutCtx) : List OutCtx :=
+  cols.map fun col => updateWithGroup o col oldInter
+
+/-- `RenderLaTeX → Write → LaTeXToPDF → PDFToPNG` for one value of a run that is interrupted (Ctrl-C) while
+`LaTeXToPDF` waits: a launched command that has not terminated by then (`late`) is terminated and its value is
+not yielded (lines 183-199) — the pdf it wrote at launch stays, no image is made.  Everything else as `tailStage`. -/
+def tailStageI {C : Type} [DecidableEq C] (conv : Conv C) (cfg : Cfg) (tpl : Nat) (late : Bool) (w : World C) (v : Val C) :
+    Except Exc (World C × Option (Val C)) :=
+  match writeVal conv cfg.outdir cfg.w2 w (renderVal conv tpl v) with
+  | .error e => .error e
+  | .ok (w4, v4) =>
+    match latexVal conv cfg.lo w4 v4 with
+    | .error e => .error e
+    | .ok (w5, none) => .ok (w5, none)
+    | .ok (w5, some v5) =>
+      if late && v5.out.changed == some true then .ok (w5, none)
+      else
+        match pngVal conv cfg.po "png" w5 v5 with
+        | .error e => .error e
+        | .ok (w6, v6) => .ok (w6, some v6)
+
+def runPlotsI {C : Type} [DecidableEq C] (conv : Conv C) (cfg : Cfg) (ms : List (MFKey × Tpl)) (tpl : Nat) :
+    World C → List (Plot × Bool) → Except Exc (World C × List (Val C))
+  | w, [] => .ok (w, [])
+  | w, (pl, late) :: rest =>
+    match memberStage conv cfg ms w pl with
+    | .error e => .error e
+    | .ok (w2, v2) =>
+      match tailStageI conv cfg tpl late w2 v2 with
+      | .error e => .error e
+      | .ok (w', ov) =>
+        match runPlotsI conv cfg ms tpl w' rest with
+        | .error e => .error e
+        | .ok (w'', vs) => .ok (w'', ov.toList ++ vs)
+
 /-! ## Histories -/
 
 inductive Layout where
@@ -703,6 +774,30 @@ def runSpec {C : Type} [DecidableEq C] (conv : Conv C) (w : World C) (r : RunSpe
   | .separate => runSeparate conv r.cfg r.tpl w r.plots
   | .group => runGroup conv r.cfg r.tpl w r.plots
   | .scalars => runScalars conv r.cfg r.tpl w r.plots
+
+/-- an interrupted run: `late[i]` says that the command launched for plot `i` (for the group: `late[0]`) has not
+terminated when Ctrl-C arrives.  The values listed are those yielded before the run ends with an exception. -/
+def runSpecI {C : Type} [DecidableEq C] (conv : Conv C) (w : World C) (r : RunSpec) (late : List Bool) :
+    Except Exc (World C × List (Val C)) :=
+  match mfInit r.cfg.mf, mfInit r.cfg.gmf with
+  | .error e, _ => .error e
+  | _, .error e => .error e
+  | .ok ms, .ok gms =>
+    match r.layout with
+    | .group =>
+      if r.plots.isEmpty then .error .indexError
+      else
+        let outs0 : List OutCtx := r.plots.map fun _ => {}
+        match runMembers conv r.cfg ms w r.plots with
+        | .error e => .error e
+        | .ok (w1, vs) =>
+          let newOuts := vs.map (·.out)
+          let gv : Val C := { data := .many (vs.map dataPath), name := allEq (r.plots.map (·.name)),
+                              out := updateWithGroup (groupPlotsOut outs0) newOuts (interOut outs0), group := some newOuts }
+          match tailStageI conv r.cfg r.tpl (late.headD false) w1 (mfVal r.cfg.gmf.overwrite gms gv) with
+          | .error e => .error e
+          | .ok (w2, ov) => .ok (w2, ov.toList)
+    | _ => runPlotsI conv r.cfg ms r.tpl w (r.plots.zip (late ++ List.replicate r.plots.length false))
 
 /-- one step on the world; a run that raises leaves the world as it was (the histories of the harness
 stop at an exception) -/
